@@ -450,10 +450,43 @@ def bounded(pr):
                                     if len(bad_r) < 3:
                                         bad_r.append('rotate_vector_around_an_axis(%r, P%r, P%r) = %r, P applied to the unmoved result = %r (P = %r)'
                                                      % (th, a, v, got, want, P_))
+    # the angle factor of a hydrogen bond that is exactly straight on the 0.001 A grid (donor, hydrogen, acceptor collinear, the line
+    # not parallel to a coordinate axis): same value in every pose, no exception
+    en = importlib.import_module('propka.energy')
+    import propka.atom as patom
+    import random as _random
+    rg = _random.Random(pr.seed)
+
+    def mk_at(p):
+        a = patom.Atom()
+        a.x, a.y, a.z = p
+        return a
+    for d in ((0.583, 0.577, 0.572), (0.301, -0.912, 0.277), (-0.654, 0.123, 0.745)):
+        n0 = (12.345, -7.108, 3.771)
+        ref_f = None
+        for P_ in Ps:
+            for _ in range(3):
+                ev_r += 1
+                t = tuple(round(rg.uniform(-60, 60), 3) for _ in range(3))
+                pts = []
+                for k_ in (0, 1, 3):
+                    q = C17.apply(P_, [n0[c] + k_ * d[c] for c in range(3)])
+                    pts.append(tuple(round(q[c] + t[c], 3) for c in range(3)))
+                try:
+                    r = en.angle_distance_factors(atom1=mk_at(pts[2]), atom2=mk_at(pts[1]), atom3=mk_at(pts[0]))
+                    f = r[1]
+                except Exception as e:    # noqa
+                    f = '%s: %s' % (type(e).__name__, e)
+                if ref_f is None:
+                    ref_f = f
+                if isinstance(f, str) or isinstance(ref_f, str) or abs(f - ref_f) > 1e-9:
+                    if len(bad_r) < 3:
+                        bad_r.append('angle_distance_factors on a straight donor-H-acceptor line %r: %r in pose %r + %r, %r in the first pose'
+                                     % (d, f, P_, t, ref_f))
     ev += ev_r
     classes.add('rotation helper turns with the structure')
     if bad_r:
-        viol.append({'what': 'hydrogen-placing rotation is not equivariant: %s' % bad_r[:2], 'replay': None})
+        viol.append({'what': 'geometric helper depends on the pose: %s' % bad_r[:2], 'replay': None})
     # an amino-acid structure with a chain break: the nitrogen after the gap has one neighbour only (known finding D16)
     ev += 1
     classes.add('chain break')
